@@ -232,15 +232,25 @@ class StubSolver:
     def statistics(self):
         return []
 
-    def to_smt2(self):
+    def _real(self):
+        """a genuine z3 object holding exactly what was handed to the stub (for z3's own printers)"""
+        if self.kind == "Optimize":
+            s = z3.Optimize()
+            s.add(self.assertions())
+            for k, t in self.objectives:
+                (s.minimize if k == "minimize" else s.maximize)(t)
+            return s
         s = z3.Solver()
         s.add(self.assertions())
-        return s.to_smt2()
+        return s
+
+    def to_smt2(self):
+        if self.kind == "Optimize":
+            raise AttributeError("'Optimize' object has no attribute 'to_smt2'")
+        return self._real().to_smt2()
 
     def sexpr(self):
-        s = z3.Solver()
-        s.add(self.assertions())
-        return s.sexpr()
+        return self._real().sexpr()
 
     def param_descrs(self):
         return z3.Solver().param_descrs()
